@@ -19,6 +19,7 @@ int main(void)
     else if (act == VKA_EXIT) { int c; memcpy(&c, b + o, 4); _exit(c); }
     else if (act == VKA_KILLSELF) { int s; memcpy(&s, b + o, 4); o += 4; kill(getpid(), s); }
     else if (act == VKA_CLOSE) { int fd; memcpy(&fd, b + o, 4); o += 4; close(fd); }
+    else if (act == VKA_ASK) { n = vk_script(b, sizeof b); o = 0; }
     else _exit(124);
   }
   _exit(0);
